@@ -23,6 +23,9 @@ from harness.core import run_driver
 
 import FlowCal.excel_ui  # noqa
 import FlowCal.stats  # noqa
+import FlowCal.io  # noqa
+import FlowCal.transform  # noqa
+import FlowCal.gate  # noqa
 
 W = None
 STATCOLS = None
@@ -211,6 +214,35 @@ def trace_job(job):
     return {'file': r['file'], 'frac': r['frac'], 'units': r['units'], 'beads': r['beads'], 'k': k, 'calls': rec.calls}
 
 
+def beads_part(chk):
+    """hand composition of the gated beads sample (ExcelUI.tla BeadsProgram)"""
+    spec_txt = open(os.path.join(tlc.SPEC_DIR, 'ExcelUI.tla')).read()
+    prog = [['to_rfi', 'scatter+fluorescence'], ['start_end', 250, 100], ['high_low', 'scatter'], ['density2d', 'scatter', 'sigma5']]
+    for token in ('Call("to_rfi", <<"scatter+fluorescence">>)', 'Call("start_end", <<250, 100>>)', 'Call("high_low", <<"scatter">>)',
+                  '"sigma5"'):
+        if token not in spec_txt:
+            raise tlc.MachineryError('BeadsProgram of ExcelUI.tla and conf_C10.beads_part disagree on ' + token)
+    for inst in ('A', 'B'):
+        bt, bs, fx, mo = W.beads('none', inst)
+        sp = xw.INSTR[inst]
+        for rid in ('BOK', 'BNOMEF'):
+            row = bt.loc[rid]
+            with warnings.catch_warnings():
+                warnings.simplefilter('ignore')
+                s = FlowCal.io.FCSData(os.path.join(W.dir, row['File Path']))
+                s = FlowCal.transform.to_rfi(s, sp['sc'] + sp['fl'] + sp['extra'])
+                s = FlowCal.gate.start_end(s, num_start=250, num_end=100)
+                if s.data_type == 'I':
+                    s = FlowCal.gate.high_low(s, channels=sp['sc'])
+                s = FlowCal.gate.density2d(s, channels=sp['sc'], gate_fraction=row['Gate Fraction'], xscale='logicle', yscale='logicle',
+                                           sigma=5.)
+            d = xw.same_sample(bs[rid], s)
+            chk.case(('beads', inst, rid), nontrivial=True)
+            chk.traces += 1
+            if d:
+                chk.violation('C10/beads-row-differs-from-hand-composition/' + d, {'instrument': inst, 'beads_row': rid}, prog, d)
+
+
 def trace_part(chk):
     import re
     res = tlc.require_ok(tlc.run_tlc('MC_ExcelUI', 'SPECIFICATION Spec\nCONSTANTS RowKinds <- AllRows\nMaxRows = 1\nINVARIANT Isolation\n',
@@ -296,6 +328,7 @@ def main(chk, replay=None):
         chk.traces += 1
         for lab, r in o['labels']:
             chk.violation('C10/' + lab, {'table': rows, 'row': r, 'instrument': inst, 'fractions': fracs}, [e['calls'] for e in exp], o['obs'])
+    beads_part(chk)
     trace_part(chk)
     # negative control: a different trim count must be noticed by the comparison
     rows, exp = [t for t in tables if len(t[0]) == 1 and t[0][0]['file'] == 'ok-int'][0]
